@@ -28,7 +28,11 @@ ModelShards(nn, kk) == [j \in 1..kk |-> SplitSection(nn, kk, j)]
 \* verdict over what was observed: `ok` (split returned), the shards as
 \* sequences of the source positions 0..n-1 they hold, and whether
 \* shard(k, i) equalled split(k)[i] for every i (incl. keys for dict sources)
-V_C15(nn, kk, ok, shards, shardeq) ==
+\* shardeq covers EVERY index -k-1 .. k+1 (negative ones count from the end,
+\* out-of-range ones must be refused as split(k)[i] refuses them); stable: a
+\* second split / shard on the same dataset object gives the same sections after
+\* the caller modified the list an earlier call returned (pop, reverse)
+V_C15(nn, kk, ok, shards, shardeq, stable) ==
   IF ~Valid(nn, kk) THEN
     (IF ok THEN <<"viol", "invalid-shard-count-accepted">> ELSE <<"ok", "">>)
   ELSE IF ~ok THEN <<"viol", "valid-shard-count-rejected">>
@@ -38,9 +42,10 @@ V_C15(nn, kk, ok, shards, shardeq) ==
   ELSE IF \E i, j \in 1..kk : Len(shards[i]) - Len(shards[j]) > 1
        THEN <<"viol", "shard-sizes-differ-by-more-than-one">>
   ELSE IF ~shardeq THEN <<"viol", "shard-differs-from-split">>
+  ELSE IF ~stable THEN <<"viol", "later-call-differs-after-the-caller-modified-an-earlier-result">>
   ELSE <<"ok", "">>
 
 \* design level: the model of array_split has the property
-ModelHolds == Valid(n, k) => V_C15(n, k, TRUE, ModelShards(n, k), TRUE)[1] = "ok"
+ModelHolds == Valid(n, k) => V_C15(n, k, TRUE, ModelShards(n, k), TRUE, TRUE)[1] = "ok"
 Emit == PrintT(<<"VEC", ToJson([n |-> n, k |-> k])>>)
 =============================================================================
